@@ -73,6 +73,7 @@ type concEnv struct {
 	tables  []ion.SharedSymbolTable
 	cat     ion.Catalog
 	names   map[interface{}]string
+	lists   map[string][]ion.SharedSymbolTable
 }
 
 func newConcEnv(entries []catEntry) *concEnv {
@@ -85,6 +86,7 @@ func newConcEnv(entries []catEntry) *concEnv {
 	e.cat = ion.NewCatalog(e.tables...)
 	e.names[e.cat] = "cat"
 	e.names[ion.V1SystemSymbolTable] = "sys"
+	e.buildLists()
 	return e
 }
 
@@ -103,14 +105,29 @@ func (e *concEnv) objName(obj interface{}) string {
 	return "private" // a table derived by Adjust, or one a workload built for itself
 }
 
+// imports returns THE list of shared tables for an index set: one slice per set, built with spare capacity when the
+// environment is created and handed to every workload that asks for that set (a caller's import list is shared state
+// too: a library that edits it in place disturbs the other users of the list).
 func (e *concEnv) imports(idx []int) []ion.SharedSymbolTable {
-	out := []ion.SharedSymbolTable{}
-	for _, i := range idx {
-		if i >= 1 && i <= len(e.tables) {
-			out = append(out, e.tables[i-1])
+	return e.lists[fmt.Sprint(idx)]
+}
+
+func (e *concEnv) buildLists() {
+	e.lists = map[string][]ion.SharedSymbolTable{}
+	n := len(e.tables)
+	for mask := 0; mask < 1<<uint(n); mask++ {
+		idx := []int{}
+		for i := 0; i < n; i++ {
+			if mask&(1<<uint(i)) != 0 {
+				idx = append(idx, i+1)
+			}
 		}
+		l := make([]ion.SharedSymbolTable, 0, len(idx)+3)
+		for _, i := range idx {
+			l = append(l, e.tables[i-1])
+		}
+		e.lists[fmt.Sprint(idx)] = l
 	}
-	return out
 }
 
 var concProbes = []string{"zz", "name", "$ion", "symbols", "x", ""}
@@ -142,6 +159,23 @@ func (e *concEnv) fingerprint() string {
 		fmt.Fprintf(&b, "absent=%v;", e.cat.FindExact(string(c.Name), c.Version+7) == nil)
 	}
 	show(ion.V1SystemSymbolTable)
+	for mask := 0; mask < 1<<uint(len(e.tables)); mask++ { // the shared import lists, in a fixed order
+		idx := []int{}
+		for i := range e.tables {
+			if mask&(1<<uint(i)) != 0 {
+				idx = append(idx, i+1)
+			}
+		}
+		l := e.lists[fmt.Sprint(idx)]
+		fmt.Fprintf(&b, "list%v=", idx)
+		for _, t := range l[:cap(l)][:len(idx)] {
+			if t == nil {
+				b.WriteString("nil,")
+			} else {
+				fmt.Fprintf(&b, "%s/%d,", t.Name(), t.Version())
+			}
+		}
+	}
 	fmt.Fprintf(&b, "nocat=%v", e.cat.FindLatest("no such table") == nil)
 	h := sha1.Sum([]byte(b.String()))
 	return hex.EncodeToString(h[:8])
